@@ -780,9 +780,9 @@ func checkNotifiedOwnerIsCheckedOwner(c *engine.Ctx, rule string) {
 			}
 		})
 	}
-	var lookupsOf func(v ssa.Value) map[*ssa.Lookup]bool
-	lookupsOf = func(v ssa.Value) map[*ssa.Lookup]bool {
-		out := map[*ssa.Lookup]bool{}
+	var lookupsOf func(v ssa.Value) map[ssa.Value]bool
+	lookupsOf = func(v ssa.Value) map[ssa.Value]bool {
+		out := map[ssa.Value]bool{}
 		seen := map[ssa.Value]bool{}
 		var walk func(v ssa.Value, d int)
 		walk = func(v ssa.Value, d int) {
@@ -794,6 +794,13 @@ func checkNotifiedOwnerIsCheckedOwner(c *engine.Ctx, rule string) {
 			case *ssa.Lookup:
 				if lf, _ := engine.LoadedField(x.X); lf == tblF {
 					out[x] = true
+				}
+			case *ssa.Call:
+				// the table wrapped into a small type with a lookup method: the call on the table value is the lookup
+				for _, a := range x.Call.Args {
+					if lf, _ := engine.LoadedField(engine.Unwrap(a)); lf == tblF {
+						out[x] = true
+					}
 				}
 			case *ssa.Extract:
 				walk(x.Tuple, d+1)
@@ -809,6 +816,24 @@ func checkNotifiedOwnerIsCheckedOwner(c *engine.Ctx, rule string) {
 				}
 			case *ssa.ChangeType:
 				walk(x.X, d+1)
+			case *ssa.Parameter:
+				// a check moved into a helper (verifyVisitor(cfg, …)): the entry it was handed at its call sites
+				pf := x.Parent()
+				if po, ok := pf.Object().(*types.Func); ok {
+					idx := -1
+					for i, q := range pf.Params {
+						if q == x {
+							idx = i
+						}
+					}
+					for _, g := range family {
+						for _, cs := range engine.CallsTo(g, po) {
+							if a := cs.Common().Args; idx >= 0 && idx < len(a) {
+								walk(a[idx], d+1)
+							}
+						}
+					}
+				}
 			}
 		}
 		walk(v, 0)
@@ -824,7 +849,7 @@ func checkNotifiedOwnerIsCheckedOwner(c *engine.Ctx, rule string) {
 		}
 		return out
 	}
-	checked := map[*ssa.Lookup]bool{}
+	checked := map[ssa.Value]bool{}
 	for _, g := range family {
 		engine.ForEachInstr(g, func(in ssa.Instruction) {
 			call, ok := in.(*ssa.Call)
